@@ -25,7 +25,7 @@ PROPS = {
     "C02": dict(_rt("generated RFC-0166 files are reproduced byte for byte"), bounded="bounded.b_c02"),
     "C03": dict(_rt("comments of every enumerated program survive once, in order, on the same side of every non-delimiter token"), bounded="bounded.b_c03"),
     "C06": dict(_rt("rebuilt text of every enumerated program with line-level comments is a fixed point"), bounded="bounded.b_c06"),
-    "C15": dict(_rt("deep snapshot of the tree (incl. Scope.owner, list identities) equal before/after rebuild; repeated rebuild equal"), bounded="bounded.b_c15", analyses=["analyses.purity"]),
+    "C15": dict(_rt("deep snapshot of the tree (incl. Scope.owner, list identities) equal before/after rebuild; repeated rebuild equal"), bounded="bounded.b_c15", analyses=["analyses.purity", "analyses.global_state"]),
     "C18": dict(_rt("lexical scan of every inter-token gap of the rebuilt text"), bounded="bounded.b_c18"),
     "C04": dict(level="exploration", bounded="bounded.b_c04", trusted_base=TRUSTED_COMMON + ["tree-sitter-nix as independent tokenizer / extent oracle"],
                 technique="contracts on the real code: frames of the edit functions by pvc where reached; text locality decided by a run-time-checked postcondition on set_value/remove_value over an enumerated document x path x value space (labelled bounded)",
@@ -39,7 +39,7 @@ PROPS = {
                 technique="contracts on the real code: main() exceptional postconditions by pvc; document unchanged after a refused edit decided by run-time-checked postconditions over the enumerated edit space (labelled bounded)",
                 text="a refused edit raises KeyError/ValueError, leaves rebuild() unchanged, and later edits behave as on a fresh parse",
                 note="bounded; see DESIGN.md C08"),
-    "C10": dict(level="exploration", bounded="bounded.b_c10", trusted_base=TRUSTED_COMMON,
+    "C10": dict(level="exploration", bounded="bounded.b_c10", analyses=["analyses.global_state"], trusted_base=TRUSTED_COMMON,
                 technique="contracts on the real code: context-registry obligations by pvc where reached; precedence decided by a run-time-checked postcondition on Identifier.value over all scope nestings up to a depth bound, expected binder computed on the generator's description (labelled bounded)",
                 text="resolution result equals the binder Nix scoping designates on every enumerated nesting; unbound/cyclic names raise ResolutionError; no context leaks between documents over a create/resolve/discard history",
                 note="bounded; see DESIGN.md C10"),
@@ -47,7 +47,7 @@ PROPS = {
                 technique="contracts on the real code: run-time-checked postcondition on set_value over constructed documents whose defining binding is known by construction (labelled bounded)",
                 text="exactly the defining binding changes on every constructed case; unbound names overwrite the path binding",
                 note="bounded; see DESIGN.md C11"),
-    "C13": dict(level="exploration", bounded="bounded.b_c13", trusted_base=TRUSTED_COMMON + ["independent CST value reader (bounded/b_c13.py)"],
+    "C13": dict(level="exploration", bounded="bounded.b_c13", analyses=["analyses.global_state"], trusted_base=TRUSTED_COMMON + ["independent CST value reader (bounded/b_c13.py)"],
                 technique="contracts on the real code: string escaping proved by pvc against the Nix string-lexer automaton (for all strings); containers, numbers and contexts decided by run-time-checked postconditions over an enumerated value space (labelled bounded)",
                 text="every enumerated Python value renders to text that an independent reader decodes to the same value, deterministically and stably",
                 note="float -> text is outside the verifier (no float theory in the encoding): floats are bounded only"),
@@ -59,7 +59,7 @@ PROPS = {
                 technique="deductive verification (pvc) of cli/main.py::main against a contract stated relative to uninterpreted library functions; subprocess runs as bounded cross-check",
                 text="main(): verdict/exit code of `test`, stdout of set/rm = library text with a line terminator only when missing, nothing on stdout when an edit raises - proved for all inputs under the assumed library contracts",
                 note="argument/input-channel wiring inside argparse is assumed (External contract on parser.parse_args / args.file.read), and sampled by the subprocess stand-in"),
-    "C17": dict(level="exploration", bounded="bounded.b_c17", trusted_base=TRUSTED_COMMON + ["pathlib / OS path semantics"],
+    "C17": dict(level="exploration", bounded="bounded.b_c17", analyses=["analyses.global_state"], trusted_base=TRUSTED_COMMON + ["pathlib / OS path semantics"],
                 technique="contracts on the real code: resolved_path / import following by pvc where reached; run-time-checked postconditions over generated directory layouts x working directories (labelled bounded)",
                 text="every lookup through import chains returns the value planted in the file relative to the importing file, for all cwd/spelling combinations; the three error cases raise the documented types",
                 note="bounded; see DESIGN.md C17"),
